@@ -209,7 +209,7 @@ def rnd_desc(rng):
     e["suit-authentication-wrapper"]["SuitDigest"]["suit-digest-algorithm-id"] = rng.choice(ALGS)
     if rng.random() < 0.3:
         e["suit-authentication-wrapper"]["SuitDigest"]["suit-digest-bytes"] = "deadbeef"
-    for i in range(rng.choice([0, 0, 1, 2])):
+    for i in range(rng.choice([0, 0, 1, 2, 3, 4])):
         e["suit-authentication-wrapper"][f"SuitAuthentication{i}"] = {"CoseSign1Tagged": {
             "protected": rnd_header(rng, SIGN_ALGS), "unprotected": rnd_header(rng, SIGN_ALGS) if rng.random() < 0.3 else {},
             "payload": None, "signature": "5a" * rng.choice([64, 96, 132])}}
